@@ -78,7 +78,8 @@ kinds! {
 /// | SwapW | wcell | weak (in/out) | | |
 /// | CasW | wcell | expected wsnap | desired weak (in/out) | weak? |
 /// | CasTagW | wcell | expected wsnap | tag index | |
-/// | Defer | guard | closure shape | chain (the function defers a child when it runs) | |
+/// | Defer | guard | closure shape | chain (the function defers a child when it runs) | 1 = the function panics when it runs (directed templates only) |
+/// | Reactivate | guard | 1 = a panic out of the collection it runs is caught | | |
 /// | TryAdvance/Collect | guard | | | |
 /// | CheckDeferred | at least this many deferred functions must have run by now | | | |
 /// | Signal/Await | k | | | |
